@@ -331,6 +331,13 @@ func (dec *Decoder) ReadReference(p interface{}) {
 		return
 	}
 	o := dec.refer.Read(i)
+	if o == nil {
+		// a placeholder entry (a container that is not a referable value)
+		if dec.Error == nil {
+			dec.Error = DecodeError("hprose/io: invalid reference index " + strconv.Itoa(i))
+		}
+		return
+	}
 	src := reflect.TypeOf(o)
 	dest := reflect.TypeOf(p).Elem()
 	if conv := GetConverter(src, dest); conv != nil {
